@@ -932,7 +932,7 @@ func runCheck(cfg *config) int {
 		"coverage": map[string]interface{}{
 			"evaluations":         agg.Runs,
 			"distinct_nontrivial": len(distinct),
-			"rule": "one evaluation = one simulated run: a freshly generated pool of objects (all 12 kinds, by Parse and by constructors, drawn index options), 2-6 caller tasks with drawn operation lists, and one drawn schedule + fault list, executed serially under the seeded scheduler with the race detector on, then compared operation by operation with the same operations run alone on a twin pool. " +
+			"rule": "one evaluation = one simulated run: a freshly generated pool of objects (all 12 kinds; by Parse in several text styles, by constructors, from parts of other geometry objects; siblings, shared children, a stratified or degenerate hot object; sizes next to the constants harvested from the library source), 2-16 caller tasks with drawn operation lists or one of the workload shapes (sweep, crowd, marathon, argstorm, duel), and one drawn schedule + fault list, executed serially under the seeded scheduler with the race detector on, then compared operation by operation with the same operations run alone on a twin pool (and, for a sample, with a re-execution in a fresh process in reverse order). " +
 				"A run is non-trivial iff the scheduler preempted a task at least once INSIDE an in-flight library call and at least one pair of calls from different tasks overlapped in logical time while touching the same pool object; distinct = distinct (workload, switch-sequence) hashes among those runs, counted by the driver.",
 			"samples":                          samples,
 			"runs_per_hour":                    float64(agg.Runs) / cfg.seconds * 3600,
